@@ -1,1 +1,60 @@
-From Morfuse Require Import C12.Model C12.Spec.
+(* C12/Properties.v — the property theorems of C12, and nothing else.
+   Every theorem is closed by [exact <lemma>] and followed by Print Assumptions. *)
+From Coq Require Import NArith List Bool.
+From Morfuse Require Import Base.Arr C12.Model C12.Spec C12.Proofs.
+Import ListNotations.
+Local Open Scope N_scope.
+
+(* For EVERY sequence of client operations (create / destroy objects, construct / assign /
+   clear / destroy weak references from null, an object or another reference), after every
+   operation the model of the intrusive ring implementation (SafePtrBase prev/next/ptr,
+   AbstractClass::SafePtrList) shows, for every reference slot, exactly what the finite-map
+   specification shows: dead / null / the object slot it points to, and whether it is the
+   last reference to that object.  In particular destroying an object nulls exactly the
+   references to it, and the destructor loop always terminates within its fuel (no entry of
+   the model's run is [None]). *)
+Theorem C12_weak_references_refine_the_map :
+  forall (no nr : nat) (ops : list op),
+    run no nr ops = map Some (spec_run no nr ops).
+Proof. exact run_refines_spec. Qed.
+Print Assumptions C12_weak_references_refine_the_map.
+
+(* The statement is not vacuous: a concrete history in the model.  Two references (slots 0
+   and 1) to the object in slot 0 and one reference (slot 2) to the object in slot 1; a
+   redundant assignment changes nothing; clearing slot 1 makes slot 0 the last reference,
+   re-assigning it undoes that; destroying object 0 nulls slots 0 and 1 and leaves slot 2
+   alone; finally reference 0 is destroyed. *)
+Example C12_model_history :
+  run 2 3 [ONewObj 0; ONewObj 1;
+           ONewRef 0 (SObj 0); ONewRef 1 (SRef 0); ONewRef 2 (SObj 1);
+           OAssign 1 (SObj 0); OClear 1; OAssign 1 (SRef 0);
+           ODelObj 0; ODelRef 0] =
+  [Some [RDead; RDead; RDead];
+   Some [RDead; RDead; RDead];
+   Some [RTo (Some 0) true; RDead; RDead];
+   Some [RTo (Some 0) false; RTo (Some 0) false; RDead];
+   Some [RTo (Some 0) false; RTo (Some 0) false; RTo (Some 1) true];
+   Some [RTo (Some 0) false; RTo (Some 0) false; RTo (Some 1) true];
+   Some [RTo (Some 0) true; RNull; RTo (Some 1) true];
+   Some [RTo (Some 0) false; RTo (Some 0) false; RTo (Some 1) true];
+   Some [RNull; RNull; RTo (Some 1) true];
+   Some [RDead; RNull; RTo (Some 1) true]].
+Proof. vm_compute. reflexivity. Qed.
+
+(* the same history in the specification *)
+Example C12_spec_history :
+  spec_run 2 3 [ONewObj 0; ONewObj 1;
+                ONewRef 0 (SObj 0); ONewRef 1 (SRef 0); ONewRef 2 (SObj 1);
+                OAssign 1 (SObj 0); OClear 1; OAssign 1 (SRef 0);
+                ODelObj 0; ODelRef 0] =
+  [[RDead; RDead; RDead];
+   [RDead; RDead; RDead];
+   [RTo (Some 0) true; RDead; RDead];
+   [RTo (Some 0) false; RTo (Some 0) false; RDead];
+   [RTo (Some 0) false; RTo (Some 0) false; RTo (Some 1) true];
+   [RTo (Some 0) false; RTo (Some 0) false; RTo (Some 1) true];
+   [RTo (Some 0) true; RNull; RTo (Some 1) true];
+   [RTo (Some 0) false; RTo (Some 0) false; RTo (Some 1) true];
+   [RNull; RNull; RTo (Some 1) true];
+   [RDead; RNull; RTo (Some 1) true]].
+Proof. vm_compute. reflexivity. Qed.
